@@ -60,6 +60,11 @@ def model(repo, axis):
         it = loop.iter if isinstance(loop, ast.For) else None
         if any(isinstance(n, (ast.Continue, ast.Break)) for n in ast.walk(loop)):
             filters.append("continue/break in the loop")
+    if (dom is None or dom["var"] is None) and it is not None and any(isinstance(x, ast.Attribute) and x.attr in ("items", "keys", "values") for x in ast.walk(it)):
+        # a loop over the entries of a map: one record per key the map happens to hold, not one per row/column of the grid
+        P(f"the header loop runs over `{U(it)[:60]}`: a {axis} for which the map holds no entry gets no header record and reverts to the default size on reopen")
+        out["header"], out["kw"], out["full"] = h, kw, False
+        return out
     if dom is None or dom["var"] is None:
         raise AnalysisError(f"{name}: the header loop is not a counting loop")
     out["domain"] = dom
